@@ -255,7 +255,13 @@ where
         for &i in &degs {
             let fin = fac.get(&(i - 1)).cloned().unwrap_or_default();
             let fout = fac.get(&i).cloned().unwrap_or_default();
-            let m = Module { rank: ngen(i) - fin.len() - fout.len(), tors: fin.into_iter().filter(|x| !x.is_unit()).collect() };
+            // (rank in + rank out can exceed the number of generators only if d∘d != 0, which has been
+            //  reported above; the evaluated "homology" is then meaningless)
+            let Some(rank) = ngen(i).checked_sub(fin.len() + fout.len()) else {
+                run.fail(&format!("{key}:eval(h={h0},t={t0}):rank"), &format!("ranks of the evaluated differentials around degree {i} exceed the number of generators (not a complex)"), detail());
+                continue;
+            };
+            let m = Module { rank, tors: fin.into_iter().filter(|x| !x.is_unit()).collect() };
             if !m.is_zero() {
                 evaluated.insert(i as i64, m);
             }
